@@ -9,7 +9,7 @@ THEOREMS = ['AiutiVerif.Batcher.C11_sharer_adds_no_work','AiutiVerif.Batcher.C11
             'AiutiVerif.Batcher.C11_fresh_adds_work', 'AiutiVerif.Batcher.runProgram_Rq',
             'AiutiVerif.Batcher.C11_retention_zero_forgets', 'AiutiVerif.Batcher.C11_old_result_only_within_window',
             'AiutiVerif.Batcher.C11_remembered_throughout_window', 'AiutiVerif.Batcher.foldl_applyIn_T',
-            'AiutiVerif.Batcher.advance_quiet']
+            'AiutiVerif.Batcher.advance_quiet', 'AiutiVerif.Batcher.C11_sharer_receives_the_original_outcome', 'AiutiVerif.Batcher.C04_answer_is_final']
 ASSUMPTIONS = list(_batcher.ASSUMPTIONS_COMMON)
 RULE = ('timed sequences of up to 10 calls over 1..3 keys with gaps around retention_timeout and batch completion, retention in {0, 96, 640} ticks, value / exception outcomes, default str(arg) keys and explicit keys, no cancellation; every program runs on the real AsyncBackgroundBatcher under a virtual clock and on the Lean '
         'machine, the event streams are compared on the components this property mentions, and an independent '
